@@ -50,10 +50,11 @@ class Other:
       The name or instance of the other segment of the connection.
       If circular, then **segment**.
     """
-    segment_name = str(segment)
-    if segment_name == str(self.from_segment):
+    segment_name = segment.name if isinstance(segment, gfapy.Line) \
+                     else str(segment)
+    if segment_name == self.from_name:
       return self.to_segment
-    elif segment_name == str(self.to_segment):
+    elif segment_name == self.to_name:
       return self.from_segment
     elif tolerant:
       return None
